@@ -8,7 +8,10 @@
      - each reported path starts at ommx.v1.Instance (or is the instance-level MissingField). *)
 EXTENDS Gen_Validate, Validate
 RawOfVec == IF vec.ev = "pvalidate" THEN vec.in.pinst ELSE vec.in.inst
-BasesOK == \A b \in Bases : TypedFaults(b) = {} /\ ValidateOK(b)
+\* (Base3 carries a removed entry without a body: valid for validate(), one MissingField for the typed conversion)
+BasesOK == /\ \A b \in Bases : ValidateOK(b)
+           /\ \A b \in Bases \ {Base3} : TypedFaults(b) = {}
+           /\ TypedFaults(Base3) # {}
 TypedImpliesValid == (phase = 1 /\ vec.ev = "typed") => (TypedFaults(RawOfVec) = {} => ValidateOK(RawOfVec))
 PathsRooted == (phase = 1 /\ vec.ev = "typed") =>
    \A f \in TypedFaults(RawOfVec) : (f[2] = <<>> /\ f[1] = "MissingField") \/ (f[2] # <<>> /\ f[2][1][1] = MI)
